@@ -517,6 +517,7 @@ func main() {
 	}
 	wg2.Wait()
 
+	tEnum := time.Since(t0)
 	total := workerSummary{PerScenario: map[string]int{}, Outcomes: map[string]int{}, Notes: map[string]int{}}
 	var fails []fail
 	deaths := 0
@@ -535,14 +536,7 @@ func main() {
 	validated := 0
 	var confFails []fail
 	if emit && plainBin != "" {
-		var idxs []int
-		for g := range obs {
-			if g%stride == 0 {
-				idxs = append(idxs, g)
-			}
-		}
-		sort.Ints(idxs)
-		validated, confFails = validatePlain(plainBin, id, tier, idxs, obs, work)
+		validated, confFails = validatePlain(plainBin, id, tier, stride, obs, work)
 		fails = append(fails, confFails...)
 	}
 	// every failure found on an instrumented build must reproduce on the plain build
@@ -551,6 +545,10 @@ func main() {
 		fails, unconfirmed, validated = confirmFailures(plainBin, id, tier, fails, validated)
 	}
 
+	tValid := time.Since(t0)
+	if os.Getenv("VERIF_VERBOSE") != "" {
+		fmt.Printf("phases: build+enumeration %.1fs, validation on plain build %.1fs\n", tEnum.Seconds(), (tValid - tEnum).Seconds())
+	}
 	// ---- known findings
 	var kf knownFile
 	if b, err := os.ReadFile(filepath.Join(verifRoot, "known_findings.json")); err == nil {
@@ -703,39 +701,55 @@ func firstN(s string, n int) string {
 	return s
 }
 
-// validatePlain re-runs the given cases on the plain build and compares observation digests.
-func validatePlain(plainBin, id, tier string, idxs []int, obs map[int]string, work string) (int, []fail) {
-	var mu sync.Mutex
-	validated := 0
-	var fails []fail
-	sem := make(chan struct{}, 32)
+// validatePlain re-runs every stride-th case on the plain build (sharded over worker
+// processes) and compares the per-case observation digests with the instrumented build's.
+func validatePlain(plainBin, id, tier string, stride int, obs map[int]string, work string) (int, []fail) {
+	const nw = 32
+	results := make([]workerRun, nw)
 	var wg sync.WaitGroup
-	for _, g := range idxs {
+	for i := 0; i < nw; i++ {
 		wg.Add(1)
-		sem <- struct{}{}
-		go func(g int) {
+		go func(i int) {
 			defer wg.Done()
-			defer func() { <-sem }()
-			got, died, _ := runOnly(plainBin, id, tier, g, 120*time.Second)
-			want := obs[g]
-			mu.Lock()
-			defer mu.Unlock()
-			if died != "" {
-				if strings.Contains(want, "HOST-PANIC") || strings.Contains(want, "CRASH") {
-					validated++
-					return
-				}
-				fails = append(fails, fail{Class: "CONFORMANCE:plain build died", Index: g, Scenario: "conformance", Detail: fmt.Sprintf("instrumented observation %s; plain build: %s", want, died)})
-				return
-			}
-			if got.obs == want {
-				validated++
-				return
-			}
-			fails = append(fails, fail{Class: "CONFORMANCE:observation differs between instrumented and plain build", Index: g, Scenario: "conformance", Detail: fmt.Sprintf("instrumented %s\nplain %s", want, got.obs)})
-		}(g)
+			results[i] = runShard(plainBin, id, tier, i, nw, filepath.Join(work, fmt.Sprintf("plainhashes-%d.bin", i)), 20*time.Minute, 120*time.Second, true, []string{"-stride", strconv.Itoa(stride)})
+		}(i)
 	}
 	wg.Wait()
+	validated := 0
+	var fails []fail
+	for _, r := range results {
+		died := map[int]string{}
+		for _, f := range r.fails {
+			if strings.HasPrefix(f.Class, "WORKER-DEATH") || strings.HasPrefix(f.Class, "TIMEOUT") {
+				died[f.Index] = f.Class
+			}
+		}
+		for g, cls := range died {
+			want, ok := obs[g]
+			if !ok {
+				continue
+			}
+			if strings.Contains(want, "HOST-PANIC") || strings.Contains(want, "HANG") || strings.Contains(want, "DEADLOCK") {
+				validated++
+				continue
+			}
+			fails = append(fails, fail{Class: "CONFORMANCE:plain build died", Index: g, Scenario: "conformance", Detail: fmt.Sprintf("instrumented observation %s; plain build: %s", want, cls)})
+		}
+		for g, got := range r.obs {
+			if _, d := died[g]; d {
+				continue
+			}
+			want, ok := obs[g]
+			if !ok {
+				continue
+			}
+			if got == want {
+				validated++
+				continue
+			}
+			fails = append(fails, fail{Class: "CONFORMANCE:observation differs between instrumented and plain build", Index: g, Scenario: "conformance", Detail: fmt.Sprintf("instrumented %s\nplain %s", want, got)})
+		}
+	}
 	return validated, fails
 }
 
@@ -806,7 +820,7 @@ func confirmFailures(plainBin, id, tier string, fails []fail, validated int) ([]
 		if f.Index < 0 || strings.HasPrefix(f.Class, "CONFORMANCE") || strings.HasPrefix(f.Class, "WORKER-DEATH") || strings.HasPrefix(f.Class, "TIMEOUT") {
 			continue
 		}
-		key := f.Class + strings.Join(f.Tags, ",")
+		key := f.Class
 		if perClass[key] >= 3 {
 			continue
 		}
@@ -834,7 +848,7 @@ func confirmFailures(plainBin, id, tier string, fails []fail, validated int) ([]
 					}
 				}
 			}
-			key := f.Class + strings.Join(f.Tags, ",")
+			key := f.Class
 			mu.Lock()
 			if ok {
 				confirmedClass[key] = true
@@ -849,7 +863,7 @@ func confirmFailures(plainBin, id, tier string, fails []fail, validated int) ([]
 	var out []fail
 	unconfirmed := 0
 	for _, f := range fails {
-		key := f.Class + strings.Join(f.Tags, ",")
+		key := f.Class
 		if unconfirmedClass[key] && !confirmedClass[key] {
 			unconfirmed++
 			fmt.Printf("UNCONFIRMED (not reproduced on the plain build, not counted): class=%s index=%d\n", f.Class, f.Index)
